@@ -188,6 +188,17 @@ CHECKS = {
         design="DESIGN.md 5 (C18)",
         technique="TLA+ spec + TLC (laws + registry state machine); spec->code replay; code->spec trace validation",
     ),
+    "C19": dict(
+        engine="tla-manager",
+        text="Analyzer.tla derives the analysis table from committed frame results (one row pair per TP / FP / TN / FN item, counts, position errors and "
+        "confusion counts of paired rows, the ground truths tabulated twice). The histories of MC_ManagerHist carry that table and TLC checks "
+        "per-status counts = list sizes, ground-truth rows = critical ground truths and the as-built count identity in every state; each history "
+        "is evaluated by a real manager (base_link and map rendering; one and two scenes), tabulated by PerceptionAnalyzer3D and compared: num_* "
+        "properties, rows, ego-frame positions, x / y / yaw errors, rates in [0,1], confusion entries and sum, get_object_status.",
+        note="equal headings, area division 1; two known-finding signatures (ground truth matched by a failing estimate counted twice)",
+        design="DESIGN.md 5 (C19)",
+        technique="TLA+ spec over call histories + TLC exhaustive; spec->code replay of every history through the analyzer",
+    ),
     "C20": dict(
         engine="tla-enums",
         text="Enums.tla defines Parse(enum, member table, spelling) over byte sequences with the documented case folding (FrameID, label policy) and "
